@@ -7,9 +7,9 @@ ROOT = os.path.dirname(os.path.dirname(os.path.abspath(__file__)))
 
 TRUSTED = ("Trusted: Lean 4.33 kernel (axioms per theorem audited on every run: subset of propext, Classical.choice, Quot.sound; "
            "no sorry/admit/axiom/native_decide); the statements in lean/Memterm/Props/{id}.lean as the reading of the property; "
-           "the tie of the hand-written model (lean/Memterm/Screen|Parser|Utf8|Step.lean) to /repo, which is checked on every run, not assumed: "
+           "the tie of the hand-written model (lean/Memterm/Screen|Sparse|Parser|Utf8|Step.lean) to /repo, which is checked on every run, not assumed: "
            "constants and tables are regenerated from the compiled crate, and every transition the real crate performs in the run's sessions "
-           "is compared with the model's step (differential, so bounded by the generators; distribution in the evidence). "
+           "is compared with the model's step (differential, so bounded by the generators; distribution, the model branches compared and the raw-buffer agreement of the sparse layer are in the evidence). "
            "Modelled, not verified: rustc, HashMap, generator-rs, encoding_rs, unicode-width/-normalization (parameters of the model).")
 
 TECH = "Lean 4 theorems over an executable model tied to the code by regenerated tables + per-run one-step correspondence; property predicate (the theorem's own definition) replayed on the implementation's transitions"
@@ -39,6 +39,7 @@ CLAIMS = {
     "C04": dict(
         text="Theorems C04.draw_invisible, put_narrow_cell, put_wide_cell (lead + placeholder, lead only in the last column), put_cursor, wrap_on / wrap_position (exactly CR + LF, scrolling at the bottom margin), "
              "wrap_off, irm_on (= ICH by the width), combine_same_row / combine_previous_row / combine_home, draw_frame (no setting changes), draw_is_fold, for every Unicode width / combining function. "
+             "sparse_draw: draw on the HashMap buffer model (entry().or_insert paths, sparse rows) observes as the dense draw. "
              "propC04 compares every draw transition of the crate with the documented rendering (cells, cursor, settings).",
         technique=TECH, design="7 (C04)",
         note="Unicode width, combining class and NFC are parameters of the model; their values are supplied per session by the real crates. NFC itself is not verified."),
@@ -54,23 +55,28 @@ CLAIMS = {
         text="Theorem C06.C06_holds: for every well-formed state and every count/argument, index/linefeed/reverse index/IL/DL/DECSTBM produce exactly the "
              "documented grid (rows of the region shifted by min(n, rows available) with cells intact, vacated rows blank, rows outside untouched), cursor and "
              "margins (C06.expect, written from the statement: guard top<=y<=bottom, acceptance iff the clamped region spans two rows, homing, CSI r clears), "
-             "and nothing else changes. propC06 is evaluated on the crate's transitions.",
+             "and nothing else changes; wrap_scrolls: a printable character drawn at the pending-wrap position on the bottom margin with DECAWM scrolls the region up by exactly one line "
+             "(autowrap clause); sparse_index / sparse_reverseIndex / sparse_il / sparse_dl: the row re-keying loops on the HashMap model (any row may be absent) observe as the dense operations. "
+             "propC06 and propC06wrap are evaluated on the crate's transitions.",
         technique=TECH, design="7 (C06)"),
     "C07": dict(
         text="Theorem C07.C07_holds: ED 0/1/2/3, EL 0/1/2 and ECH n blank exactly the documented region (C07.region, incl. the pending-wrap column and unsupported "
              "selectors = empty region) with spaces carrying the cursor's rendition, every other cell, the cursor and all settings unchanged; "
-             "region_ignores_margins: margins/DECOM do not occur in the region. propC07 is evaluated on the crate's transitions.",
+             "region_ignores_margins: margins/DECOM do not occur in the region; sparse_ed / sparse_el / sparse_ech: the insert loops on the HashMap model observe as the dense operations. "
+             "propC07 is evaluated on the crate's transitions (the private flag the dispatch table passes is forwarded to the real Screen).",
         technique=TECH, design="7 (C07)"),
     "C09": dict(
         text="Theorems C09.init_wellformed / step_wellformed / reachable_wellformed: the invariant Inv (cursor bounds, margins, dirty rows, nothing stored outside the grid, "
              "legal saved width) holds for a new screen and is preserved by every one of the 43 operations incl. draw (any Unicode width function), resize and DECCOLM, hence for "
              "every reachable state by induction over the history; reachable_colours / step_colours: every cell, the cursor's rendition and every saved rendition have fg/bg that is a documented "
              "colour name or a hex string (tables_ok on the regenerated tables, rgb_ok for the `{:02x}` formatting of any component); display() has exactly `lines` rows. "
+             "sparse_step_refines / sparse_reachable_wellformed: every operation on the HashMap buffer model observes as the dense operation, so every reachable buffer state observes as a well-formed screen. "
              "The executable form (Dump.illFormed, colour names written out independently of the tables) is evaluated on every state dumped from the real crate in this run.",
         technique=TECH, design="7 (C09)"),
     "C13": dict(
         text="Theorem C13.C13_holds: ICH/DCH splice exactly min(n, columns-x) cells in the cursor row (absent/0 = 1), shifted cells travel whole (text + attributes), every other row, "
              "the cursor and settings unchanged; ich_then_dch: cells pushed across the edge do not come back; nothing_hidden: nothing is stored outside the grid afterwards. "
+             "sparse_ich / sparse_dch: the reverse loop of ICH and the forward loop of DCH on a row map in which any cell may be absent (loop invariants IchInv / DchInv) observe as the dense splice. "
              "propC13 is evaluated on the crate's transitions, and the dumped buffers are checked for keys outside the grid.",
         technique=TECH, design="7 (C13)"),
     "C08": dict(
@@ -81,21 +87,27 @@ CLAIMS = {
         technique=TECH, design="7 (C08)"),
     "C10": dict(
         text="Theorems C10.display_spec (each row is the documented rendering: left-to-right concatenation skipping the cell after a double-width character; exactly `lines` rows), blank_row, "
-             "display_pure, run_strip / display_positions_irrelevant (histories differing only in display() calls end in the same state). On the implementation: every display transition must leave "
+             "display_pure, run_strip / display_positions_irrelevant (histories differing only in display() calls end in the same state); on the HashMap buffer model, where display() really inserts "
+             "the rows and cells it reads: sparse_display_renders (it returns the rendering of the observation), sparse_display_pure (no observation changes), sparse_display_positions_irrelevant "
+             "(histories differing only in where display() materialised what end in the same observable state). On the implementation: every display transition must leave "
              "the complete observable state unchanged and return the model's rendering of the dumped grid, and model-free runs interpose display() at random points of generated histories.",
         technique=TECH + "; model-free runs with interposed display()", design="7 (C10)",
-        note="In the observation model display() is a function of the state, so purity is by construction there; that the implementation's materialisation of default cells is unobservable is decided by the runs."),
+        note="The sparse layer's agreement with the crate's raw buffer, display()'s materialisation included, is measured on every transition and reported in the evidence."),
     "C11": dict(
-        text="Theorems C11.decode_one / decode_wellformed / decode_wellformed_chunked (every scalar value's UTF-8 encoding decodes to exactly that code point, for every string and every chunking), "
+        text="Proofs/Utf8Spec: a declarative specification of conforming streaming decoding (Unicode Table 3-7 as wfSeq, U+FFFD per maximal subpart, incomplete tail held: the relation Decodes bytes out pending) "
+             "with decode_sound (from every reachable decoder state the output for the next bytes is a conforming decoding of pending ++ bytes), decode_complete, decode_spec (iff), decodes_unique "
+             "(nothing dropped, duplicated or reordered), held_is_suffix; C11.wf_encode / encode_wf (the table's sequences are exactly the encodings of the scalar values), feedBytes_conforming. "
+             "Also C11.decode_one / decode_wellformed / decode_wellformed_chunked (every scalar value's UTF-8 encoding decodes to exactly that code point, for every string and every chunking), "
              "invalid_lead, incomplete_held, maximal_subpart (one U+FFFD, the offending byte is reprocessed), dok_step (at most 3 bytes pending), eightbit, switch_to_8bit (pending tail dropped), "
              "switch_to_utf8, other_codes_ignored, plus C02.bytes_chunking. The decoder is encoding_rs's: the model is tied to it by the lockstep runs on byte sessions and by the "
              "String::from_utf8_lossy oracle of the metamorphic runs.",
         technique=TECH + "; from_utf8_lossy oracle", design="7 (C11)",
-        note="Partial: the equivalence of the state machine with a declarative maximal-subpart decoder for arbitrary ill-formed input is stated step-wise (maximal_subpart), not as one theorem over whole strings."),
+        note="The decoder itself is a dependency (encoding_rs): the theorems are about the state-machine model of it, tied by lockstep."),
     "C12": dict(
         text="Theorems C12.sm_membership / rm_membership (exactly the listed numbers, private ones as 32n), sm_other / rm_other (a list without DECSCNM/DECCOLM/DECOM/DECTCEM changes "
              "only membership - for every number), sm/rm_dectcem, sm/rm_decom (homing), sm/rm_decscnm (every cell, current and default rendition, all rows dirty), "
-             "sm/rm_deccolm (132 columns / saved width back, erased with the current rendition, home), C12_holds for the executable predicate. propC12 is evaluated on every SM/RM transition of the crate.",
+             "sm/rm_deccolm (132 columns / saved width back, erased with the current rendition, home), C12_holds for the executable predicate; sparse_setMode / sparse_resetMode: flipping the cells that exist in the "
+             "HashMap while absent ones follow through default_char() is the dense `every cell`. propC12 is evaluated on every SM/RM transition of the crate.",
         technique=TECH, design="7 (C12)",
         note="'Previous width' is read as the width at the last SM ?3 (the code overwrites the saved width on a repeated SM; DESIGN R8 revised)."),
     "C14": dict(
@@ -105,15 +117,17 @@ CLAIMS = {
         technique=TECH, design="7 (C14)"),
     "C15": dict(
         text="Theorems C15.reset_eq / reset_is_new_screen (after RIS every field except the saved-cursor stack equals that of a newly constructed screen of the current size, for every prior state), "
-             "reset_dirty (exactly the rows of the screen are dirty), reset_forgets (whatever happened before), default_modes, dispatch_RIS, C15_holds. The continuation clause "
-             "(same input, same state afterwards) follows in the model from reset_is_new_screen because every operation is a function of the state; on the implementation it is decided by the "
-             "model-free metamorphic run state(h, RIS, t) = state(new screen, t) over generated h, t (t without DECRC), plus propC15 on every reset transition.",
+             "reset_dirty (exactly the rows of the screen are dirty), reset_forgets (whatever happened before), default_modes, dispatch_RIS, C15_holds; reset_continuation / reset_continuation_fields: for every "
+             "history that does not pop below the stack a new screen starts with, the run after RIS equals the run on a new screen with the old stack underneath - every other component identical "
+             "(Proofs/StackExt: each of the 43 operations commutes with extending the saved-cursor stack below, DECRC on an empty stack being the one exception, shown necessary by a witness). "
+             "On the implementation: the model-free metamorphic run state(h, RIS, t) = state(new screen, t), exhaustive RIS/DECSC/DECRC/X histories, and propC15 on every reset transition.",
         technique=TECH + "; model-free metamorphic runs on the implementation", design="7 (C15)",
-        note="The relational continuation theorem modulo the saved-cursor stack (stack of the reset screen = stack of the fresh one with the old stack underneath) is not yet a Lean theorem; it is covered by the metamorphic runs."),
+),
     "C16": dict(
         text="Theorems C16.resize_spec (for every well-formed state and target size: new geometry, margins cleared, exactly the new rows dirty, cell (y,x) = old cell (y+d,x) with d rows dropped "
              "from the top, blank elsewhere), resize_same (same size = identity), kept_resize (modes, tab stops, titles, charsets, stack, rendition untouched), resize_cursor (cursor inside the new bounds), "
-             "resize_wellformed (nothing stored outside the new grid), shrink_then_grow (the regained area is blank), C16_holds. propC16 is evaluated on every resize transition of the crate and "
+             "resize_wellformed (nothing stored outside the new grid), shrink_then_grow (the regained area is blank), C16_holds; sparse_resize: resize on the HashMap buffer model (rows re-keyed by the DL loop, "
+             "per-row removal of the cut columns) observes as the dense crop / extend. propC16 is evaluated on every resize transition of the crate and "
              "every dumped buffer is checked for keys outside the grid.",
         technique=TECH, design="7 (C16)"),
     "C17": dict(
